@@ -3,7 +3,7 @@
    order of dense / convolution / deconvolution / max-pool / feedback layers, loop and skip
    connections included), dropout on any subset of layers. *)
 From NV Require Import Prelude Num NumF32 Random Tensor Activation Objective Optimizer Layers Network Learn.
-From NV.Theory Require Import Monad C09.
+From NV.Theory Require Import Monad Par C09.
 
 (* after training returns - all epochs run or early stopping - every training flag is off *)
 Theorem C09_learn_clears_flags :
@@ -48,3 +48,20 @@ Theorem C09_after_learn_predicts_dropout_free :
     learn p n xs ts val batch epochs = Ok (n', h) -> predict (strip_net n') x = predict n' x.
 Proof. intros. apply predict_dropout_free. eapply learn_clears_flags. eassumption. Qed.
 Print Assumptions C09_after_learn_predicts_dropout_free.
+
+(* the batch entry point: with every flag off, predict_batch is that of the dropout-free network *)
+Theorem C09_predict_batch_dropout_free :
+  forall (N : Num) (p : pmap_t), pmap_ordered p ->
+    forall (n : network N) (xs : list (tensor N)),
+    all_clear (n_layers n) -> predict_batch p (strip_net n) xs = predict_batch p n xs.
+Proof. exact @predict_batch_dropout_free. Qed.
+Print Assumptions C09_predict_batch_dropout_free.
+
+(* hence after learn (all epochs or early stopping) batches are predicted dropout-free as well *)
+Theorem C09_after_learn_predict_batch_dropout_free :
+  forall (N : Num) (p q : pmap_t), pmap_ordered q ->
+    forall (n n' : network N) xs ts val batch epochs h (zs : list (tensor N)),
+    learn p n xs ts val batch epochs = Ok (n', h) ->
+    predict_batch q (strip_net n') zs = predict_batch q n' zs.
+Proof. exact @after_learn_predict_batch_dropout_free. Qed.
+Print Assumptions C09_after_learn_predict_batch_dropout_free.
